@@ -67,7 +67,7 @@ def replay(cases):
         except Exception as e:  # pragma: no cover
             dow = repr(e)
         if dow != c["dow"]:
-            viol.append(("getDayOfWeek", "getDayOfWeek(%s) = %r, specification %r" % (_fields(t), dow, c["dow"]), c["day"]))
+            viol.append(("growth:getDayOfWeek", "getDayOfWeek(%s) = %r, specification %r" % (_fields(t), dow, c["dow"]), c["day"]))
         # ---- offsets and order
         for k, sc in c["succ"].items():
             if sc["day"] < 0:
